@@ -1,1 +1,71 @@
-(* placeholder until the proofs are in: no theorem yet *)
+(* C02 — PUS-C telecommand encode/decode is exact and mutually inverse.
+   Statements only; proofs are `exact <lemma>` from Proofs/PusTcProofs.v.
+   tc_layout (Spec/PusSpec.v) is the independent oracle: CCSDS primary header (type TC,
+   secondary header present, unsegmented, data length = total - 7), [0x20+ack; service;
+   subservice; source-id hi; lo], application data, CRC-16/CCITT-FALSE (bitwise definition). *)
+From Coq Require Import ZArith List.
+From SP Require Import Base.Result Base.Bytes Base.Crc16 Model.SpacePacket Spec.SpacePacketSpec
+  Model.PusTc Spec.PusSpec Proofs.PusTcProofs.
+Import ListNotations.
+Open Scope Z_scope.
+
+(* packing yields exactly the standard's octets; reported length = packed length = dlen + 7 *)
+Theorem C02_pack_layout : forall service subservice apid seq source_id ack app,
+  tc_args_valid service subservice apid seq source_id ack app ->
+  exists t t', tc_new service subservice apid app seq source_id ack = Ok t /\
+    tc_pack t = Ok (tc_layout service subservice apid seq source_id ack app, t') /\
+    tc_sph t' = tc_sph t /\ tc_sec t' = tc_sec t /\ tc_app t' = tc_app t /\
+    tc_packet_len t = len (tc_layout service subservice apid seq source_id ack app) /\
+    dlen (tc_sph t) = len (tc_layout service subservice apid seq source_id ack app) - 7.
+Proof. exact tc_pack_layout. Qed.
+Print Assumptions C02_pack_layout.
+
+(* construct -> pack -> unpack (whatever follows in the buffer): equal to the original in both
+   directions of ==, every field identical, re-packing reproduces the octets, the generic
+   space-packet view packs to the same octets, the standalone CRC check passes *)
+Theorem C02_roundtrip : forall service subservice apid seq source_id ack app rest,
+  tc_args_valid service subservice apid seq source_id ack app -> wf_bytes rest ->
+  exists t p t' u,
+    tc_new service subservice apid app seq source_id ack = Ok t /\
+    tc_pack t = Ok (p, t') /\ p = tc_layout service subservice apid seq source_id ack app /\
+    tc_unpack (p ++ rest) = Ok u /\
+    tc_sph u = tc_sph t /\ tc_sec u = tc_sec t /\ tc_app u = tc_app t /\
+    tc_eqb u t = true /\ tc_eqb t u = true /\
+    (exists u', tc_pack u = Ok (p, u')) /\
+    tc_to_space_packet_pack t = Ok p /\
+    check_pus_crc p = true /\
+    tc_packet_len u = len p.
+Proof. exact tc_roundtrip. Qed.
+Print Assumptions C02_roundtrip.
+
+(* the decoder equals the standard's field table with the documented refusals on EVERY octet string *)
+Theorem C02_unpack_spec : forall d, wf_bytes d -> tc_unpack d = tc_decode_spec d.
+Proof. exact tc_unpack_spec. Qed.
+Print Assumptions C02_unpack_spec.
+
+(* acceptance implies: declared length holds secondary header and CRC, fits the buffer, CRC over
+   exactly the declared octets is zero, application data is exactly octets 11 .. n-3 *)
+Theorem C02_accept_inv : forall d t, wf_bytes d -> tc_unpack d = Ok t ->
+  let n := sph_packet_len (tc_sph t) in
+  13 <= n <= len d /\ crc16 (firstn (Z.to_nat n) d) = 0 /\
+  sph_unpack d = Ok (tc_sph t) /\ tc_app t = slice d 11 (n - 2) /\
+  tc_crc t = Some (slice d (n - 2) n).
+Proof. exact tc_accept_inv. Qed.
+Print Assumptions C02_accept_inv.
+
+(* a declared packet length too small for secondary header + CRC is rejected with a documented error *)
+Theorem C02_rejects_small_declared_length : forall d, wf_bytes d -> (6 <= length d)%nat ->
+  (forall h, sph_unpack d = Ok h -> dlen h + 7 < 13) ->
+  exists e, tc_unpack d = Err e /\ documented e = true.
+Proof. exact tc_unpack_rejects_small_decl. Qed.
+Print Assumptions C02_rejects_small_declared_length.
+
+(* constructor refusals: APID, sequence count, application data that does not fit *)
+Theorem C02_new_refuses : forall service subservice apid seq source_id ack app,
+  ~ (0 <= apid <= 2047 /\ 0 <= seq <= 16383 /\ len app <= 65529) ->
+  tc_new service subservice apid app seq source_id ack = Err EValue.
+Proof. exact tc_new_refuses. Qed.
+Print Assumptions C02_new_refuses.
+
+Example C02_args_valid_inhabited : tc_args_valid 17 1 2047 16383 65535 15 [1; 2; 255].
+Proof. exact tc_valid_example. Qed.
